@@ -420,6 +420,38 @@ pub fn run(tier: &str, only: Option<&Value>) -> i32 {
     if only.is_none() || matches!(only, Some(l) if l["space"] == "same_name_across_modules") {
         same_name_across_modules(&mut rep);
     }
+    if only.is_none() || matches!(only, Some(l) if l["space"] == "underscore_functions") {
+        // Functions whose names start with an underscore get no wrapper at all (the convention that keeps
+        // placeholder slots out of the API). Whatever the generator does with them, it has to do on the base
+        // and on the derived type alike: a public method that exists on the base is callable on the derived one.
+        for (k, text) in [
+            "pub type B {\n    pub x: u64,\n}\nimpl B {\n    #[address(0x10000)]\n    pub fn _helper(&self);\n    #[address(0x10010)]\n    pub fn shown(&self);\n}\npub type D {\n    #[base]\n    pub b: B,\n    pub y: u64,\n}\n",
+            "pub type B {\n    vftable {\n        pub fn _purecall(&self);\n        pub fn v(&self);\n    },\n    pub x: u64,\n}\npub type Other {\n    pub z: u64,\n}\npub type D {\n    #[base]\n    pub o: Other,\n    #[base]\n    pub b: B,\n}\n",
+        ]
+        .iter()
+        .enumerate()
+        {
+            let input = pipe::Input::single(text.to_string());
+            rep.states += 1;
+            rep.traces += 1;
+            rep.evaluations += 1;
+            rep.transitions += 2;
+            rep.distinct_str(&format!("underscore|{k}"));
+            let viol = match pipe::run(&input, 8) {
+                pipe::Verdict::Ok(b) => match synx::file_info(&b.files["m.rs"]) {
+                    Err(e) => Some(("output_unreadable".to_string(), e)),
+                    Ok(fi) => {
+                        let on_d: Vec<String> = fi.methods("D").iter().map(|m| m.name.clone()).collect();
+                        fi.methods("B").iter().filter(|m| m.public && m.name != "vftable" && !on_d.contains(&m.name)).map(|m| ("base_member_not_reexposed_faithfully".to_string(), format!("B::{} is a public method of the base type, D has no method of that name (D has {on_d:?})", m.name))).next()
+                    }
+                },
+                other => Some(("valid_hierarchy_rejected".to_string(), other.err_text())),
+            };
+            if let Some((key, detail)) = viol {
+                rep.violation(Violation { key, features: vec!["underscore_function".into()], input, ps: 8, detail, locator: json!({"space": "underscore_functions", "ps": 8}) });
+            }
+        }
+    }
     if only.is_some() {
         for v in &rep.violations {
             println!("{}\n{}: {}", v.input.render(), v.key, v.detail);
